@@ -103,6 +103,25 @@ def stepAgg (st : St) (cmd : List String) (got : String) : Option (St × Verdict
       if kk < 1 || kk > 64 || ww > 65536 || !(fn == "paror" || fn == "parand" || fn == "parheapor") then some (skipV st got)
       else some (st, expect (digest (f ops) ++ " same=true in=ok") got)
     | _, _, _, _ => some (skipV st got)
+  | ["aggmany", fn, w, n, k1, k2] =>
+    match workers? w, n.toNat?, k1.toNat?, k2.toNat? with
+    | some _, some n, some k1, some k2 =>
+      if n < 1 || n > 262144 || k1 > 65535 || k2 > 65535 || k1 == k2 then some (skipV st got)
+      else
+        let isOr := fn == "fastor" || fn == "heapor" || fn == "paror" || fn == "parheapor"
+        let isAnd := fn == "fastand" || fn == "parand"
+        if !(isOr || isAnd) then some (skipV st got) else
+        let b1 := k1 * 65536
+        let b2 := k2 * 65536
+        let common := BSet.union (BSet.single (b1 + 1)) (BSet.single (b2 + 2))
+        let own := BSet.union (BSet.range (b1 + 10) (b1 + 10 + min n 60000)) (BSet.range (b2 + 10) (b2 + 10 + min n 50000))
+        -- the intersection of n >= 2 members: the common values (two members never share BOTH own values; a shared single own
+        -- value needs every member to hold it, i.e. n = 1)
+        let r := if isOr then BSet.union common own
+                 else if n == 1 then BSet.union common (BSet.union (BSet.single (b1 + 10)) (BSet.single (b2 + 10)))
+                 else common
+        some (st, expect (digest r ++ " valid=ok") got)
+    | _, _, _, _ => some (skipV st got)
   | "concdec" :: k :: x :: mode =>
     match k.toNat?, st.bm[x]? with
     | some kk, some _ =>
